@@ -292,7 +292,9 @@ def r1(ctx):
                has_path_fact(st.node, "has_acks", True, hf.node), ctx.w(hf, st.node),
                "trailer stripped under a different condition than the one serialize writes it back under")
     hm = _msg_param_or_local(hf)
-    sets = [st for st in stores(hf.node) if st.path == f"{hm}.raw_body" and st.kind == "assign"]
+    from .common import dealias_class_locals
+    hf_node = dealias_class_locals(repo, hf)        # `layout = PacketLayout; data[layout.PHL_NAME:]`
+    sets = [st for st in stores(hf_node) if st.path == f"{hm}.raw_body" and st.kind == "assign"]
     ctx.floor("C02.R1", "raw_body set sites in the header parser", len(sets), 1)
     data_params = [a.arg for a in hf.node.args.args if a.arg not in ("self", "cls")]
     ev = ConstEval(repo, hf.module)
@@ -616,6 +618,73 @@ def r3(ctx):
 
 # --------------------------------------------------------------------------- R4
 
+def _simple_callee(repo, fn_, call):
+    """(FuncInfo, parameter names without self/cls) of a helper called as Class.m(..) / self.m(..) / f(..)"""
+    g = None
+    if isinstance(call.func, ast.Attribute) and isinstance(call.func.value, ast.Name):
+        owner = fn_.cls if call.func.value.id in ("self", "cls") else repo.resolve_class(call.func.value.id, fn_.module)
+        g = repo.lookup_method(owner, call.func.attr) if owner is not None else None
+    elif isinstance(call.func, ast.Name):
+        cands = [x for x in repo.funcs.get(call.func.id, []) if x.module is fn_.module and x.cls is None and x.parent_fn is None]
+        g = cands[0] if len(cands) == 1 else None
+    if g is None:
+        return None, []
+    decos = {(ap(d) or "").split(".")[-1] for d in g.node.decorator_list}
+    ps = [a.arg for a in g.node.args.args]
+    if g.cls is not None and "staticmethod" not in decos:
+        ps = ps[1:]
+    return g, ps
+
+
+def _term_test(repo, fn_, e, X, depth=0):
+    """e (a condition that holds) says: X ends with the NUL terminator - directly, or through a predicate helper"""
+    ev = ConstEval(repo, fn_.module)
+    if isinstance(e, ast.Call) and call_attr(e) == "endswith" and isinstance(e.func, ast.Attribute) \
+            and ap(e.func.value) == X and len(e.args) == 1 and _is_nul(e.args[0], ev):
+        return True
+    if isinstance(e, ast.Call) and depth < 3 and any(ap(a) == X for a in e.args):
+        g, ps = _simple_callee(repo, fn_, e)
+        if g is not None:
+            rets = [r for r in walk(g.node) if isinstance(r, ast.Return)]
+            idx = next(i for i, a in enumerate(e.args) if ap(a) == X)
+            if len(rets) == 1 and rets[0].value is not None and idx < len(ps):
+                return _term_test(repo, g, rets[0].value, ps[idx], depth + 1)
+    return False
+
+
+def _strips_one_terminator(repo, fn_, recv, X, depth=0):
+    """recv is X without exactly one trailing terminator: X[:-1], X.removesuffix(NUL), or a helper whose every return is
+    its parameter itself or such a strip of it (the [:-1] ones under a terminator test of their own)"""
+    ev = ConstEval(repo, fn_.module)
+    if isinstance(recv, ast.Subscript) and ap(recv.value) == X and isinstance(recv.slice, ast.Slice):
+        s_ = recv.slice
+        up = s_.upper
+        return s_.lower is None and s_.step is None and isinstance(up, ast.UnaryOp) and isinstance(up.op, ast.USub) \
+            and isinstance(up.operand, ast.Constant) and up.operand.value == 1
+    if isinstance(recv, ast.Call) and call_attr(recv) == "removesuffix" and isinstance(recv.func, ast.Attribute) \
+            and ap(recv.func.value) == X and len(recv.args) == 1 and _is_nul(recv.args[0], ev):
+        return True
+    if isinstance(recv, ast.Call) and depth < 3 and any(ap(a) == X for a in recv.args):
+        g, ps = _simple_callee(repo, fn_, recv)
+        idx = next(i for i, a in enumerate(recv.args) if ap(a) == X)
+        if g is None or idx >= len(ps):
+            return False
+        p = ps[idx]
+        rets = [r for r in walk(g.node) if isinstance(r, ast.Return)]
+        strips = 0
+        for r in rets:
+            if r.value is not None and ap(r.value) == p:
+                continue
+            if r.value is None or not _strips_one_terminator(repo, g, r.value, p, depth + 1):
+                return False
+            sliced = isinstance(r.value, ast.Subscript)
+            if sliced and not any(pol and _term_test(repo, g, e, p) for e, pol in facts(r, g.node)):
+                return False
+            strips += 1
+        return strips >= 1
+    return False
+
+
 def r4(ctx):
     repo = ctx.repo
     ctx.rule("C02.R4", "bytes-preserving text heuristic: _parse_var decodes only NUL-terminated data, strictly, "
@@ -685,15 +754,24 @@ def r4(ctx):
 
     # ---- reader side: the returns of _parse_var, followed into helpers that are handed the unpacked value
     # (`return self._guess_repr(unpacked, tmpl_variable)` -> the helper's returns, under its parameter name)
-    ret_sites, work, seen_fns = [], [(pv, X)], set()
+    ret_sites, work, seen_fns = [], [(pv, X, False)], set()
     while work:
-        fn_, Xn = work.pop()
+        fn_, Xn, optional = work.pop()
         if fn_.full in seen_fns:
             continue
         seen_fns.add(fn_.full)
         for r in [n for n in walk(fn_.node) if isinstance(n, ast.Return)]:
             v = r.value
+            if optional and (v is None or (isinstance(v, ast.Constant) and v.value is None)):
+                continue        # "could not decode": the caller tests the result for None and falls back
             tgt = None
+            opt_next = optional
+            if isinstance(v, ast.Name) and v.id != Xn:
+                # `text = self._decode(data)` ... `if text is not None: return text`
+                srcs = [st.value for st in stores(fn_.node, into_defs=False) if st.path == v.id and st.kind == "assign"]
+                nn = any((nt := is_none_test(e)) and nt[0] == v.id and nt[1] != pol for e, pol in facts(r, fn_.node))
+                if len(srcs) == 1 and isinstance(srcs[0], ast.Call) and nn:
+                    v, opt_next = srcs[0], True
             if isinstance(v, ast.Call) and any(ap(a) == Xn for a in list(v.args) + [k.value for k in v.keywords]):
                 if isinstance(v.func, ast.Attribute) and isinstance(v.func.value, ast.Name) and fn_.cls is not None \
                         and v.func.value.id in ("self", "cls", fn_.cls.name):
@@ -726,7 +804,7 @@ def r4(ctx):
                     if ap(k.value) == Xn and k.arg in ps:
                         pname = k.arg
                 if pname is not None:
-                    work.append((tgt, pname))
+                    work.append((tgt, pname, opt_next))
                     continue
             ret_sites.append((fn_, r, Xn))
     n_dec = 0
@@ -757,19 +835,11 @@ def r4(ctx):
                "text is post-processed after decoding (strip/rstrip/replace…): not the inverse of `encode + one NUL`")
         d = decs[0]
         recv = d.func.value if isinstance(d.func, ast.Attribute) else None
-        one = False
-        if isinstance(recv, ast.Subscript) and ap(recv.value) == Xn and isinstance(recv.slice, ast.Slice):
-            s = recv.slice
-            up = s.upper
-            one = s.lower is None and s.step is None and isinstance(up, ast.UnaryOp) and isinstance(up.op, ast.USub) \
-                and isinstance(up.operand, ast.Constant) and up.operand.value == 1
-        elif isinstance(recv, ast.Call) and call_attr(recv) == "removesuffix" and isinstance(recv.func, ast.Attribute) \
-                and ap(recv.func.value) == Xn and len(recv.args) == 1 and _is_nul(recv.args[0], ConstEval(repo, fn_.module)):
-            one = True
+        one = recv is not None and _strips_one_terminator(repo, fn_, recv, Xn)
         ctx.ob("C02.R4", f"{key} removes exactly one terminator", one, where,
                f"decodes {norm(recv) if recv is not None else '?'}: must be <data>[:-1] or removesuffix(NUL) - "
                f"_pack_string appends exactly one NUL")
-        guarded = False
+        guarded = any(pol and _term_test(repo, fn_, e, Xn) for e, pol in facts(r, fn_.node))
         for e, pol in facts(r, fn_.node):
             if pol and isinstance(e, ast.Call) and call_attr(e) == "endswith" and isinstance(e.func, ast.Attribute) \
                     and ap(e.func.value) == Xn and len(e.args) == 1 and _is_nul(e.args[0], ConstEval(repo, fn_.module)):
@@ -1271,7 +1341,18 @@ def r8(ctx):
     from ..core import parent
     bare = []
     uses = 0
-    for n in walk(td.node, into_defs=True):
+    # Message.to_dict, and every other function of the library that gets at a block's variable dict from outside Block
+    # (`<block>.vars`): renderers / serializers of other formats must copy as well
+    scan = [(td, n) for n in walk(td.node, into_defs=True)]
+    for g in repo.all_funcs:
+        if g.parent_fn is not None or g == td or (g.cls is not None and g.cls.name == "Block"):
+            continue
+        for n in walk(g.node, into_defs=True):
+            if isinstance(n, ast.Attribute) and n.attr == "vars" and not (isinstance(n.value, ast.Name) and n.value.id in ("self", "cls")):
+                scan.append((g, n))
+    owner_of = {}
+    for g_, n in scan:
+        owner_of[id(n)] = g_
         if isinstance(n, ast.Attribute) and n.attr in ("vars", "_blocks") and isinstance(n.ctx, ast.Load):
             uses += 1
             p = parent(n)
@@ -1291,6 +1372,12 @@ def r8(ctx):
             if not copied:
                 bare.append(n)
     ctx.stats["C02.R8.internal dict uses in to_dict"] = uses
+    for n in [x for x in bare if owner_of[id(x)] != td]:
+        g_ = owner_of[id(n)]
+        ctx.ob("C02.R8", f"{g_.qual}: `{norm(parent(n))}` does not keep a reference to a block's own variable dict", False, ctx.w(g_, n),
+               "Block.vars taken by reference outside Block: whatever this function (or its caller) then writes into that dict "
+               "is written into the message itself, and the next re-encode is no longer the datagram that arrived")
+    bare = [x for x in bare if owner_of[id(x)] == td]
     ctx.ob("C02.R8", "Message.to_dict: per-block dicts are copies, not Block.vars / _blocks themselves", not bare, td.where,
            "; ".join(f"`{norm(parent(n))}`" for n in bare) + " hands the message's own variable dict to the caller: rendering "
            "the message (LLSD / event-queue form rewrites U32/U64/IP values in place) changes what is re-encoded afterwards"
@@ -1407,7 +1494,61 @@ def r11(ctx):
            f"(exponent all ones, quiet bit clear) arrives as 7fa00000 and leaves as 7fe00000 once the body was parsed")
 
 
+def r12(ctx):
+    repo = ctx.repo
+    ctx.rule("C02.R12", "the send path does not look into the body: between prepare and transport.send nothing reads the "
+                        "message's blocks / renders it (that would run the lazy parse, drop the raw body and re-encode - or "
+                        "fail on - a datagram that should go out as it came), except to rewrite a message singled out by name "
+                        "or while reporting a failure")
+    anchors = [repo.fn("Circuit._send_prepared_message"), repo.fn("ProxiedCircuit._send_prepared_message"),
+               repo.fn("Circuit.send"), repo.fn("Circuit.send_datagram")]
+    fns = {}
+    for a in anchors:
+        for g in class_methods_reachable(repo, a, depth=2):
+            # circuit code only: what the serializer does with raw body / blocks is C02.R1's subject
+            if g.name not in ("prepare_message",) and g.cls is not None and any(k.name == "Circuit" for k in repo.mro(g.cls)):
+                fns[g.full] = g
+    ctx.floor("C02.R12", "functions on the send path", len(fns), 3)
+    n = 0
+    for g in fns.values():
+        try:
+            m = _msg_param(g, ctx)
+        except AnalysisError:
+            continue
+        for node in walk(g.node, into_defs=True):
+            looks = None
+            if isinstance(node, ast.Attribute) and ap(node.value) == m and node.attr in ("blocks", "_blocks") and isinstance(node.ctx, ast.Load):
+                looks = node
+            elif isinstance(node, ast.Call) and isinstance(node.func, ast.Attribute) and ap(node.func.value) == m \
+                    and node.func.attr in ("to_dict", "to_summary", "repr", "get_block", "ensure_parsed", "__getitem__"):
+                looks = node
+            elif isinstance(node, ast.Call) and ap(node.func) in ("repr", "str") and node.args and ap(node.args[0]) == m:
+                looks = node
+            elif isinstance(node, ast.FormattedValue) and ap(node.value) == m:
+                looks = node
+            elif isinstance(node, ast.Subscript) and ap(node.value) == m:
+                looks = node
+            elif isinstance(node, ast.Compare) and any(isinstance(o, (ast.In, ast.NotIn)) for o in node.ops) \
+                    and any(ap(c) == m for c in node.comparators):
+                looks = node
+            if looks is None:
+                continue
+            n += 1
+            in_handler = any(tc.section == "handler" for tc in try_contexts(looks, g.node))
+            in_raise = any(isinstance(a_, ast.Raise) for a_ in ancestors(looks))
+            by_name = any(pol and isinstance(e, ast.Compare) and len(e.ops) == 1 and isinstance(e.ops[0], (ast.Eq, ast.In))
+                          and (ap(e.left) or "").endswith(".name") for e, pol in facts(looks, g.node))
+            ctx.ob("C02.R12", f"{g.qual}: `{norm(looks)}` does not parse a message on its way out", in_handler or in_raise or by_name,
+                   ctx.w(g, looks), "reads / renders the body of every message that is sent (tracing, statistics): a never-parsed "
+                                    "datagram is parsed here, loses its raw body and goes out re-encoded; one whose body does not "
+                                    "parse can no longer be forwarded")
+    ctx.stats["C02.R12.body reads on the send path"] = n
+    if n == 0:
+        ctx.ob("C02.R12", "send path: no function reads the message body", True, "", "")
+
+
 def run(ctx):
+    r12(ctx)
     r11(ctx)
     r10(ctx)
     r9(ctx)
